@@ -377,7 +377,7 @@ def checkpoint(det, how):
     return det
 
 
-def run_two_pass(loads, law, second=True, peek="none", ckpt="none", loads_second=None, rec=None):
+def run_two_pass(loads, law, second=True, peek="none", ckpt="none", loads_second=None, rec=None, refill=False):
     """loads: 1-D float array (single point) or Series (load_step, node_id).
     peek: the user looks at recorder.collective before the first pass and / or between the passes.
     loads_second: what the second pass is fed (default: the same object as the first pass).
@@ -392,12 +392,15 @@ def run_two_pass(loads, law, second=True, peek="none", ckpt="none", loads_second
         first_rows = None
         if peek in ("between", "both"):
             rec.collective
-        if peek == "plot":
+        if peek in ("plot", "plot_hyst"):
             # the documented way to look at the curve so far.  Whether the plot helper itself copes with every
             # history is not C04's or C05's subject (it raises AttributeError for [2,-2,0,-3,2,0,2] on the unchanged
             # tree); what is judged is that looking does not change what is counted afterwards.
             try:
-                det.interpolated_stress_strain_data(n_points_per_branch=3)
+                if peek == "plot_hyst":
+                    det.interpolated_stress_strain_data(n_points_per_branch=2, only_hystereses=True)    # the closed loops only
+                else:
+                    det.interpolated_stress_strain_data(n_points_per_branch=3)
             except Exception:      # noqa
                 pass
         if ckpt == "fork":
@@ -411,7 +414,11 @@ def run_two_pass(loads, law, second=True, peek="none", ckpt="none", loads_second
         elif ckpt != "none":
             det = checkpoint(det, ckpt)
             rec = det.recorder
-        if second:
+        if second and refill and loads_second is not None and len(loads_second) == len(loads):
+            # the caller reads the second recording into the buffer that held the first one
+            loads[:] = loads_second
+            det.process_hcm_second(loads)
+        elif second:
             det.process_hcm_second(loads if loads_second is None else loads_second)
     except Exception as e:    # noqa
         raise RealCodeError("process_hcm", e)
@@ -478,7 +485,7 @@ def generate(prop, rng, tier):
               "mat": rng.randrange(len(MATERIALS)), "bins": rng.choice([10, 20, 50]),
               "twin": None,
               "container": rng.choice(["f64", "f64", "f64", "list", "i64", "i32", "i16", "series", "f32int", "negzero", "mixedzero", "series_ls", "tuple", "deque", "array"]),
-              "peek": rng.choice(["none", "none", "before", "between", "both", "plot"]),
+              "peek": rng.choice(["none", "none", "before", "between", "both", "plot", "plot_hyst"]),
               "ckpt": rng.choice(["none", "none", "none", "deepcopy", "pickle", "fork"])}
         if rng.random() < 0.3:
             # J3 twin: interior-only refinement, compared per pass with the base
@@ -488,6 +495,7 @@ def generate(prop, rng, tier):
             # thinned or refined one the other time): another refinement incl. the junction, or the reversals only
             tr["twin2"] = refine(rng, lv, junction=True, density=rng.choice([0.3, 0.7])) if rng.random() < 0.6 else "reversals"
             tr["shared_recorder"] = rng.random() < 0.5
+            tr["same_buffer"] = rng.random() < 0.4
         elif rng.random() < 0.3:
             # the same history on a batched replica (several proportional points at once):
             # the junction code has a branch of its own for Series input
@@ -543,7 +551,7 @@ def generate_c05(rng, tier):
     tr = {"world": NAME, "levels": lv, "step": step, "law": rng.choice(["EN", "EN", "SB"]),
           "mat": rng.randrange(len(MATERIALS)), "bins": rng.choice([20, 50, 100, 200]),
           "mode": rng.choice(["K1", "K1", "K2", "K2", "K3"]),
-          "peek": rng.choice(["none", "none", "between", "both", "plot"]),
+          "peek": rng.choice(["none", "none", "between", "both", "plot", "plot_hyst"]),
           "ckpt": rng.choice(["none", "none", "deepcopy", "pickle", "fork"]),
           "law_built": rng.choice(["ctor", "ctor", "ctor", "set_K", "set_Kp", "refill"])}
     edge = rng.random() < 0.4
@@ -686,7 +694,7 @@ def exec_c04(trace, out, log):
         law = get_law(trace["law"], int(trace["mat"]), law_nodes([(i, big * 1.0731 * r) for i, r in nodes], trace.get("law_order")), int(trace["bins"]))
         if trace.get("law_order") in ("sorted", "reversed"):
             out.count("probe:law_node_order_" + trace["law_order"])
-        det, rec, _ = run_two_pass(ser, law, peek=trace.get("peek", "none") if trace.get("peek") != "plot" else "between")
+        det, rec, _ = run_two_pass(ser, law, peek=trace.get("peek", "none") if trace.get("peek") not in ("plot", "plot_hyst") else "between")
         all_rows = collective_rows(rec)
         out.steps += 2
         out.count("probe:batched_history")
@@ -779,6 +787,16 @@ def exec_c04(trace, out, log):
             # they are not recordings of the same stretch of the repeated sequence
             out.count("skipped:twin2_other_stretch_of_the_sequence")
             return
+        same_buffer = False
+        if trace.get("same_buffer") and len(tw2) <= len(lv):
+            # both recordings have the same number of samples (the shorter one dwells at interior samples) and the
+            # caller reads them into ONE buffer object, refilled in place between the passes
+            q = 0
+            while len(tw2) < len(lv):
+                i = 1 + q % max(1, len(tw2) - 1) if len(tw2) > 2 else 1
+                tw2.insert(i, tw2[i])
+                q += 2
+            same_buffer = tw2[0] != tw2[-1] and _same_periodic_reversals(lv, tw2)
         shared = FKMNonlinearRecorder() if trace.get("shared_recorder") else None
         n_before = 0
         kept = []
@@ -788,7 +806,9 @@ def exec_c04(trace, out, log):
                 continue
             l1 = np.array([x * step for x in first], dtype=np.float64)
             l2 = np.array([x * step for x in secnd], dtype=np.float64)
-            detm, recm, _ = run_two_pass(l1, law, loads_second=l2, rec=shared)
+            detm, recm, _ = run_two_pass(l1, law, loads_second=l2, rec=shared, refill=same_buffer)
+            if same_buffer:
+                out.count("history:second_recording_read_into_the_first_buffer")
             rows_all = collective_rows(recm)
             rowsm = rows_all[n_before:]
             if shared is not None:
@@ -1231,6 +1251,10 @@ def shrink(prop, trace):
         if trace.get("shared_recorder"):
             t = copy.deepcopy(trace)
             t["shared_recorder"] = False
+            yield t
+        if trace.get("same_buffer"):
+            t = copy.deepcopy(trace)
+            t["same_buffer"] = False
             yield t
         if trace["twin2"] != "reversals":
             t = copy.deepcopy(trace)
